@@ -106,8 +106,8 @@ func (u *unionOneAndNullCodec) Omit(p unsafe.Pointer) bool {
 
 func (u *unionOneAndNullCodec) Write(w *WriteBuf, p unsafe.Pointer) {
 	if u.codec.Omit(p) {
-		// TODO: this assumes the null type is always first.
-		w.Varint(0)
+		// the null branch is the one that is not nonNull
+		w.Varint(int64(1 - u.nonNull))
 		return
 	}
 	w.Varint(int64(u.nonNull))
